@@ -417,6 +417,84 @@ func main() {
 		}(r)
 	}
 
+	// OPTIONS templates with 1..9 scope fields and 1..3 option fields (slices of every length, most of them with spare capacity),
+	// announced once and then only READ: several goroutines decode data records of the same template at the same time, and look
+	// the template up; anything that writes to what the cache holds while decoding with it is a race between them
+	optIP := net.IPv4(198, 51, 102, 9).To4()
+	optMsg := func(v byte, tid, nScope, nOpt int) ([]byte, int) {
+		ids := []uint16{10, 14, 8, 12, 21, 22, 16, 17, 34, 35, 36, 37}
+		body := []byte{byte(tid >> 8), byte(tid), 0, 0, 0, 0}
+		if v == 10 {
+			binary.BigEndian.PutUint16(body[2:], uint16(nScope+nOpt))
+			binary.BigEndian.PutUint16(body[4:], uint16(nScope))
+		} else {
+			binary.BigEndian.PutUint16(body[2:], uint16(4*nScope))
+			binary.BigEndian.PutUint16(body[4:], uint16(4*nOpt))
+		}
+		for i := 0; i < nScope+nOpt; i++ {
+			id := ids[i%len(ids)]
+			if v == 9 && i < nScope {
+				id = uint16(1 + i%5) // v9 scope types: system, interface, line card, cache, template
+			}
+			body = append(body, byte(id>>8), byte(id), 0, 4)
+		}
+		sid := byte(3)
+		hl := 16
+		if v == 9 {
+			sid, hl = 1, 20
+		}
+		set := append([]byte{0, sid, 0, byte(4 + len(body))}, body...)
+		msg := make([]byte, hl)
+		binary.BigEndian.PutUint16(msg[0:], uint16(v))
+		if v == 10 {
+			binary.BigEndian.PutUint16(msg[2:], uint16(hl+len(set)))
+		}
+		return append(msg, set...), 4 * (nScope + nOpt)
+	}
+	type optT struct{ tid, rec int }
+	var opts10, opts9 []optT
+	for k, sh := range [][2]int{{1, 1}, {2, 1}, {3, 1}, {5, 2}, {6, 1}, {7, 1}, {9, 3}, {4, 4}} {
+		m10, r10 := optMsg(10, 800+k, sh[0], sh[1])
+		ipfix.NewDecoder(optIP, m10).Decode(mc)
+		opts10 = append(opts10, optT{800 + k, r10})
+		m9, r9 := optMsg(9, 800+k, sh[0], sh[1])
+		netflow9.NewDecoder(optIP, m9).Decode(mc9)
+		opts9 = append(opts9, optT{800 + k, r9})
+	}
+	optData := func(v byte, tid, rec int) []byte {
+		set := append([]byte{byte(tid >> 8), byte(tid), 0, byte(4 + 2*rec)}, make([]byte, 2*rec)...)
+		hl := 16
+		if v == 9 {
+			hl = 20
+		}
+		msg := make([]byte, hl)
+		binary.BigEndian.PutUint16(msg[0:], uint16(v))
+		if v == 10 {
+			binary.BigEndian.PutUint16(msg[2:], uint16(hl+len(set)))
+		}
+		return append(msg, set...)
+	}
+	for r := 0; r < 4; r++ {
+		wg.Add(1)
+		go func(r int) {
+			defer wg.Done()
+			for i := r; atomic.LoadInt32(&stop) == 0; i++ {
+				o := opts10[i%len(opts10)]
+				if m, _ := ipfix.NewDecoder(optIP, optData(10, o.tid, o.rec)).Decode(mc); m == nil || len(m.DataSets) != 2 {
+					fail("ipfix: two records of options template %d were not decoded as two records", o.tid)
+					return
+				}
+				var tr ipfix.TemplateRecord
+				rpc.Get(ipfix.RPCRequest{ID: uint16(o.tid), IP: optIP}, &tr)
+				o9 := opts9[i%len(opts9)]
+				if m, _ := netflow9.NewDecoder(optIP, optData(9, o9.tid, o9.rec)).Decode(mc9); m == nil || len(m.DataSets) != 2 {
+					fail("netflow v9: two records of options template %d were not decoded as two records", o9.tid)
+					return
+				}
+			}
+		}(r)
+	}
+
 	time.Sleep(*dur)
 	atomic.StoreInt32(&stop, 1)
 	wg.Wait()
